@@ -279,7 +279,7 @@ def fold_text_family(repo: Repo, family: str) -> dict | None:
         ci = repo.cls(family)
         out: dict = {"cases": 0, "bad": [], "slots": fam.where}
         wide = family == "Wchar"
-        texts = ["A", "h\u00e9llo", "a\U0001f600b", "\u4e2d\u6587", "long-" * 130] if wide else [b"A", b"hello", b"\xff\x80\x01", b"a b", b"0123456789" * 70]
+        texts = ["A", "h\u00e9llo", "a\U0001f600b", "\u4e2d\u6587", "A\u4e00B", "\u4e00AB", "\ufeffAB", "long-" * 130] if wide else [b"A", b"hello", b"\xff\x80\x01", b"a b", b"0123456789" * 70]
         for endian in ORDER:
             attrs: dict[str, Any] = {"cs": Sym("cs", {"endian": endian}), "size": 2 if wide else 1, "__name__": family}
             if "__encoding_map__" in ci.attrs:
@@ -350,7 +350,7 @@ def fold_text_arrays(repo: Repo) -> dict | None:
             for endian in "<>":
                 codec = "utf-16-le" if endian == "<" else "utf-16-be"
                 enc_map = Evaluator({}).ev(wchar.attrs["__encoding_map__"], {"sys": Sym("sys", {"byteorder": sys.byteorder})}) if "__encoding_map__" in wchar.attrs else {}
-                values = (["ab", "a\U0001f600", "h\u00e9llo", ""] if wide else [b"ab", b"\xff\x00\x01", [65, 66], "ab", b""])
+                values = (["ab", "a\U0001f600", "h\u00e9llo", "\ufeffAB", ""] if wide else [b"ab", b"\xff\x00\x01", [65, 66], "ab", "caf\xe9", b""])
                 for v in values:
                     for kind in ("fixed", "dynamic", "null-terminated"):
                         if wide:
@@ -374,6 +374,21 @@ def fold_text_arrays(repo: Repo) -> dict | None:
                         out["cases"] += 1
                         if got != (len(want), want):
                             out["bad"].append((family, f"endian={endian}", kind, v if not isinstance(v, bytes) else v.hex(), got if isinstance(got, str) else (got[0], got[1].hex()), want.hex()))
+        # reading: the array class wraps exactly what the generic array reader returns (no stripping of a leading U+FEFF, no re-decoding)
+        for family, sample in (("WcharArray", "\ufeffAB"), ("WcharArray", "ab\u4e00"), ("CharArray", b"\xef\xbb\xbfab")):
+            rd = repo.lookup_method(family, "_read")
+            if rd is None:
+                continue
+            cls = Sym(family, {"cs": Sym("cs", {"endian": "<"}), "null_terminated": False, "dynamic": False, "num_entries": len(sample), "__name__": family})
+            env = {"super": Host(lambda *a, sample=sample: Sym("super", {}, {"_read": Host(lambda *a2, **k2: sample)})), "type": Sym("type", {}, {"__call__": Host(lambda c, v=None: v)}),
+                   "isinstance": Host(_text_isinstance), "bytes": bytes, "str": str}
+            try:
+                got = Evaluator(env, steps=2000).call_user(UserFunc(rd.node), [cls, Stream(b"").sym(), None], {})
+            except Raised as e:
+                got = f"raise {e}"
+            out["cases"] += 1
+            if got != sample:
+                out["bad"].append((family, "endian=<", "reading", sample if isinstance(sample, str) else sample.hex(), repr(got), repr(sample)))
         return out
     except (Refused, Exhausted):
         return None
